@@ -187,6 +187,14 @@ def getitem(prog: Program, rep: Report, MW: ClassInfo):
                                             good = True
                             if not good:
                                 bad.append(f"{k.qualname} line {cc.lineno}")
+                if callers == 0 and m.name.startswith("_") and not m.name.startswith("__"):
+                    # a private helper whose call sites were all inlined: its body is judged inside its callers
+                    raw_MW = prog.raw.cls("ModeWrapper")
+                    n_raw = sum(1 for k in raw_MW.methods.values() for x in ast.walk(k.node)
+                                if isinstance(x, ast.Call) and isinstance(x.func, ast.Attribute) and x.func.attr == m.name
+                                and isinstance(x.func.value, ast.Name))
+                    if n_raw:
+                        continue
                 rep.decide(callers > 0 and not bad, "G6.index-forms", m, "negative-index",
                            "every caller passes a normalised / non-negative index",
                            f"{m.qualname} runs the loaders without normalising a negative index, and " + (
@@ -276,6 +284,89 @@ def getitem(prog: Program, rep: Report, MW: ClassInfo):
                        nontrivial=False)
 
 
+def _fuse_kind(fa, e, at, depth=6):
+    """What an expression of ModeWrapper.__init__ denotes, by data flow: 'groups' (the declared fused operations), 'group' (one
+    of them), 'op' (a member name of a group), 'items' (the requested item list / a copy of it), 'item', or None."""
+    ELEM = {"groups": "group", "group": "op", "items": "item"}
+    if depth <= 0 or e is None:
+        return None
+    if isinstance(e, ast.Attribute):
+        if e.attr == "fused_operations":
+            return "groups"
+        if e.attr == "items" and _n(e.value) == fa.self_name:
+            return "items"
+        return None
+    if isinstance(e, ast.Subscript):
+        if isinstance(e.slice, ast.Slice):
+            return _fuse_kind(fa, e.value, at, depth - 1)
+        return ELEM.get(_fuse_kind(fa, e.value, at, depth - 1))
+    if isinstance(e, ast.Call):
+        f = e.func
+        if isinstance(f, ast.Name) and f.id in ("list", "tuple", "copy", "deepcopy", "sorted", "reversed") and e.args:
+            return _fuse_kind(fa, e.args[0], at, depth - 1) if f.id not in ("sorted", "reversed") else None
+        if isinstance(f, ast.Attribute) and f.attr == "copy" and not e.args:
+            return _fuse_kind(fa, f.value, at, depth - 1)
+        if isinstance(f, ast.Attribute) and f.attr == "split" and not isinstance(f.value, ast.Constant):
+            return "items"
+        if isinstance(f, ast.Name) and f.id == "next" and e.args and isinstance(e.args[0], (ast.GeneratorExp, ast.ListComp)):
+            g = e.args[0]
+            if len(g.generators) == 1 and isinstance(g.elt, ast.Name) and isinstance(g.generators[0].target, ast.Name) and \
+                    g.elt.id == g.generators[0].target.id:
+                return ELEM.get(_fuse_kind(fa, g.generators[0].iter, at, depth - 1))
+        return None
+    if isinstance(e, (ast.ListComp, ast.GeneratorExp)) and len(e.generators) == 1 and isinstance(e.elt, ast.Name) and \
+            isinstance(e.generators[0].target, ast.Name) and e.elt.id == e.generators[0].target.id:
+        return _fuse_kind(fa, e.generators[0].iter, at, depth - 1)  # a filtered copy keeps the order
+    if isinstance(e, ast.Name):
+        defs = fa.cfg.reaching().get(at, {}).get(e.id, ())
+        kinds = set()
+        for d in defs:
+            nd = fa.cfg.nodes[d]
+            if nd.kind == "next":
+                it = nd.owner.iter
+                tgt = nd.owner.target
+                if isinstance(it, ast.Call) and _n(it.func) == "enumerate" and it.args:
+                    if isinstance(tgt, ast.Tuple) and len(tgt.elts) == 2 and _n(tgt.elts[1]) == e.id:
+                        kinds.add(ELEM.get(_fuse_kind(fa, it.args[0], fa.cfg.stmt_node[nd.owner], depth - 1)))
+                    else:
+                        kinds.add(None)
+                elif _n(tgt) == e.id:
+                    kinds.add(ELEM.get(_fuse_kind(fa, it, fa.cfg.stmt_node[nd.owner], depth - 1)))
+                else:
+                    kinds.add(None)
+            elif nd.kind == "entry":
+                kinds.add("items" if e.id == "items" else None)
+            else:
+                v = fa.cfg.def_value(d, e.id)
+                kinds.add(_fuse_kind(fa, v, d, depth - 1) if v is not None else None)
+        if len(kinds) == 1:
+            return next(iter(kinds))
+        return None
+    return None
+
+
+def _fuse_roles(fa):
+    """local list variables that are stored into self.fused_items / self.fused_to_idxs (a helper-style constructor builds the
+    lists locally and publishes them at the end): name -> attribute"""
+    roles = {}
+    for n_, var, val in fa.stores(f"{fa.self_name}."):
+        a_ = var.split(".", 1)[1]
+        if a_ in ("fused_items", "fused_to_idxs") and isinstance(val, ast.Name):
+            roles[val.id] = a_
+    return roles
+
+
+def _fuse_role(fa, roles, e, n):
+    r = fa.referent(e, n)
+    if isinstance(r, ast.Attribute) and _n(r.value) == fa.self_name and r.attr in ("fused_items", "fused_to_idxs"):
+        return r.attr
+    if isinstance(r, ast.Name) and r.id in roles:
+        return roles[r.id]
+    if isinstance(e, ast.Name) and e.id in roles:
+        return roles[e.id]
+    return None
+
+
 def fuse_lists_append_only(prog: Program, rep: Report, clause: str):
     """ModeWrapper.__init__: fused_items / fused_to_idxs are filled by appends only (shared by C01 and C11)."""
     MW = prog.cls("ModeWrapper")
@@ -290,29 +381,46 @@ def fuse_lists_append_only(prog: Program, rep: Report, clause: str):
     # (an item that is both requested on its own and part of a fused group must be overwritten by the fused result), so neither
     # list may be re-ordered or re-bound after the loop that fills them
     reorder = []
+    roles = _fuse_roles(fa)
+    local_binds = {}
+    for n_, nd_ in fa.cfg.nodes.items():
+        st_ = nd_.ast if nd_.kind == "stmt" else None
+        if isinstance(st_, ast.Assign):
+            for t_ in st_.targets:
+                if isinstance(t_, ast.Name) and t_.id in roles:
+                    local_binds.setdefault(t_.id, []).append((n_, st_.value))
+        elif isinstance(st_, (ast.AugAssign, ast.AnnAssign)) and isinstance(st_.target, ast.Name) and st_.target.id in roles:
+            local_binds.setdefault(st_.target.id, []).append((n_, st_))
+    for v_, bs_ in local_binds.items():
+        for n_, val in bs_:
+            if not (isinstance(val, ast.List) and not val.elts):
+                reorder.append((fa.line(n_), f"{v_} (published as self.{roles[v_]}) is re-bound"))
     for n_, var, val in fa.stores(f"{fa.self_name}."):
         a_ = var.split(".", 1)[1]
         if a_ in apps and not (isinstance(val, ast.List) and not val.elts):
+            if isinstance(val, ast.Name) and val.id in roles and val.id in local_binds:
+                continue  # publication of a locally built list (judged above)
             reorder.append((fa.line(n_), f"self.{a_} is re-bound"))
     for n_, c_ in fa.calls():
         if isinstance(c_.func, ast.Attribute) and c_.func.attr in ("sort", "reverse", "insert", "pop", "remove", "clear", "extend"):
-            r_ = fa.referent(c_.func.value, n_)
-            if isinstance(r_, ast.Attribute) and _n(r_.value) == fa.self_name and r_.attr in apps:
-                reorder.append((fa.line(n_), f"self.{r_.attr}.{c_.func.attr}(...)"))
+            a_ = _fuse_role(fa, roles, c_.func.value, n_)
+            if a_ in apps:
+                reorder.append((fa.line(n_), f"self.{a_}.{c_.func.attr}(...)"))
     rep.decide(not reorder, "G5.fuse-bookkeeping", fi, "append-only", "position table and loader-name list are only appended to, in "
                "item order", "; ".join(f"{w} (line {ln})" for ln, w in reorder[:3]) + ": the order in which loader results are "
                "written back changes - an item requested on its own and as part of a fused group is no longer overwritten by the "
                "jointly loaded value", clause=clause)
 
 
-def constructor(prog: Program, rep: Report, MW: ClassInfo):
+def constructor(prog: Program, rep: Report, MW: ClassInfo, clause: str = "C01.3", fuse_only: bool = False):
     rep.rule("G5.fuse-bookkeeping", "ModeWrapper.__init__: the positions of a fused group are collected by iterating the declared "
              "group in declaration order (the order in which the fused loader returns its components), one position per "
              "member, looked up in the full item list; a group is fused whenever all its members occur anywhere in the mode "
              "(membership tested against the whole item list, not a part of it); every append to the position table is paired "
              "with exactly one append to the loader-name list in the same block; every item of the (fused) item list "
              "contributes exactly one loader, in item order")
-    rep.rule("G9.ctx-key", "a 'ctx.<key>' item is recognised by item.startswith(P) and its key is the item with exactly that "
+    if not fuse_only:
+      rep.rule("G9.ctx-key", "a 'ctx.<key>' item is recognised by item.startswith(P) and its key is the item with exactly that "
              "prefix P removed (item[len(P):], item[<len(P)>:] or removeprefix(P)); character-set stripping (lstrip / strip / "
              "replace) is not prefix removal")
     fi = MW.methods.get("__init__")
@@ -322,9 +430,9 @@ def constructor(prog: Program, rep: Report, MW: ClassInfo):
     rep.analysed_add("functions", f"{fi.module.relpath}:{fi.qualname}")
     # paired appends
     apps = {"fused_to_idxs": [], "fused_items": []}
+    roles = _fuse_roles(fa)
     for n, c in fa.calls_named("append"):
-        r = fa.referent(c.func.value, n)
-        a = r.attr if isinstance(r, ast.Attribute) and _n(r.value) == fa.self_name else None
+        a = _fuse_role(fa, roles, c.func.value, n)
         if a in apps:
             apps[a].append((n, c))
     ok = bool(apps["fused_to_idxs"]) and len(apps["fused_to_idxs"]) == len(apps["fused_items"])
@@ -336,8 +444,8 @@ def constructor(prog: Program, rep: Report, MW: ClassInfo):
                 ok = False
     rep.decide(ok, "G5.fuse-bookkeeping", fi, "paired-appends", "each position-table append has its loader-name append in the "
                "same block", "an append to fused_to_idxs is not paired with exactly one append to fused_items under the same "
-               "conditions: loader results and position entries shift against each other", clause="C01.3")
-    fuse_lists_append_only(prog, rep, clause="C01.3")
+               "conditions: loader results and position entries shift against each other", clause=clause)
+    fuse_lists_append_only(prog, rep, clause=clause)
     # positions collected over the declared group, in declared order
     fused_app = [(n, c) for n, c in apps["fused_to_idxs"] if c.args and isinstance(c.args[0], ast.Name)
                  and any(isinstance(v, (ast.List, ast.ListComp)) for m_, var, v in fa.stores()
@@ -383,27 +491,24 @@ def constructor(prog: Program, rep: Report, MW: ClassInfo):
                                              "loader's components)") + ("" if idx_of_member else "; the collected value is not the "
                                                                          "member's position in the item list"))
     if fused_app and ok is None:
-        # positions built by a comprehension
+        # positions built by a comprehension: what does it iterate - the declared group or the item list?
         n, c = fused_app[0]
         lst = c.args[0].id
         for m_, var, v in fa.stores():
-            if var == lst and isinstance(v, ast.ListComp):
-                it = v.generators[0].iter
-                it_names = {y.id for y in ast.walk(it) if isinstance(y, ast.Name)}
-                group_names = set()
-                for t_, lab in cfg.control_predicates(m_):
-                    nd_ = cfg.nodes[t_]
-                    if nd_.kind == "next" and any(x[0] == "attr" and x[2] == "fused_operations" for x in subterms(
-                            fa.sym.term(nd_.owner.iter, cfg.stmt_node[nd_.owner]))):
-                        group_names.add(_n(nd_.owner.target))
-                if it_names & group_names and not (it_names - group_names - {"enumerate"}):
+            if var == lst and isinstance(v, ast.ListComp) and len(v.generators) == 1:
+                g = v.generators[0]
+                it = g.iter
+                if isinstance(it, ast.Call) and _n(it.func) == "enumerate" and it.args:
+                    it = it.args[0]
+                k = _fuse_kind(fa, it, m_)
+                if k == "group":
                     ok, why = True, "positions are collected by a comprehension over the declared group"
-                elif it_names - group_names - {"enumerate", "range", "len"}:
+                elif k == "items":
                     ok = False
-                    why = (f"the positions of a fused group are collected by a comprehension over {ast.unparse(it)} - i.e. in "
+                    why = (f"the positions of a fused group are collected by a comprehension over {ast.unparse(g.iter)} - i.e. in "
                            f"mode order - while the fused loader returns its components in declaration order: for a mode that "
                            f"lists the group's members in another order the components are swapped")
-    rep.decide(ok, "G5.fuse-bookkeeping", fi, "declared-order", why, why, clause="C01.3")
+    rep.decide(ok, "G5.fuse-bookkeeping", fi, "declared-order", why, why, clause=clause)
     # membership test over the whole item list
     alls = [(n, c) for n, c in fa.calls() if _n(c.func) == "all" and c.args and isinstance(c.args[0], ast.GeneratorExp)]
     ok = None
@@ -419,7 +524,7 @@ def constructor(prog: Program, rep: Report, MW: ClassInfo):
     rep.decide(ok, "G5.fuse-bookkeeping", fi, "membership-scope", "group membership is tested against the whole item list",
                "a group is only fused when its other members occur in a *part* of the item list (e.g. after the first member): "
                "modes that list the members in another order load them separately - two different draws for wrappers that "
-               "sample per call", clause="C01.3")
+               "sample per call", clause=clause)
     # one loader per item
     loops = [(n, nd) for n, nd in cfg.nodes.items() if nd.kind == "next" and any(
         fa.sym.term(c.func.value, m_)[:2] in (("self", "_getitem_fns"), ("var", "self._getitem_fns")) or (
@@ -434,7 +539,9 @@ def constructor(prog: Program, rep: Report, MW: ClassInfo):
         once = not cfg.reachable(entry, LN, avoid=adds, within=body) and not any(
             cfg.reachable(a, b, avoid={LN}, within=body) for a in adds for b in adds)
         rep.decide(once, "G5.fuse-bookkeeping", fi, "one-loader-per-item", "every item appends exactly one loader",
-                   "an item can contribute no loader or two loaders: results and positions shift", clause="C01.3")
+                   "an item can contribute no loader or two loaders: results and positions shift", clause=clause)
+    if fuse_only:
+        return
     # ctx key
     sw = [(n, c) for n, c in fa.calls_named("startswith") if c.args and isinstance(c.args[0], ast.Constant)
           and str(c.args[0].value).startswith("ctx")]
